@@ -36,16 +36,19 @@ pub struct Case {
     pub msgs: usize,
     /// flows sent later, one per step
     pub post: Vec<Fl>,
+    /// the session incoming-window the pipelined flows state (2048 = as in the begin); the later flows
+    /// re-open it to 2048
+    pub pre_window: u32,
 }
 
 impl Case {
     fn to_json(&self) -> J {
         let f = |v: &Vec<Fl>| v.iter().map(|f| json!([f.credit, f.echo_count])).collect::<Vec<_>>();
-        json!({"pre": f(&self.pre), "accept_delay_ms": self.accept_delay_ms, "msgs": self.msgs, "post": f(&self.post)})
+        json!({"pre": f(&self.pre), "accept_delay_ms": self.accept_delay_ms, "msgs": self.msgs, "post": f(&self.post), "pre_window": self.pre_window})
     }
     fn from_json(j: &J) -> Option<Case> {
         let f = |x: &J| -> Option<Vec<Fl>> { x.as_array()?.iter().map(|e| Some(Fl { credit: e.get(0)?.as_u64()? as u32, echo_count: e.get(1)?.as_bool()? })).collect() };
-        Some(Case { pre: f(j.get("pre")?)?, accept_delay_ms: j.get("accept_delay_ms")?.as_u64()?, msgs: j.get("msgs")?.as_u64()? as usize, post: f(j.get("post")?)? })
+        Some(Case { pre: f(j.get("pre")?)?, accept_delay_ms: j.get("accept_delay_ms")?.as_u64()?, msgs: j.get("msgs")?.as_u64()? as usize, post: f(j.get("post")?)?, pre_window: j.get("pre_window").and_then(|x| x.as_u64()).unwrap_or(2048) as u32 })
     }
 }
 
@@ -70,13 +73,18 @@ fn gen_case(rng: &mut Rng) -> Case {
         accept_delay_ms: [0u64, 0, 20, 50][(rng.next() % 4) as usize],
         msgs: 1 + (rng.next() % 6) as usize,
         post: (0..n_post).map(|_| fl(rng)).collect(),
+        pre_window: [2048u32, 2048, 1, 2, 3][(rng.next() % 5) as usize],
     }
 }
 
 fn link_flow(handle: u32, nii: u32, noi: u32, dc: Option<u32>, credit: u32) -> Flow {
+    link_flow_w(handle, nii, noi, dc, credit, 2048)
+}
+
+fn link_flow_w(handle: u32, nii: u32, noi: u32, dc: Option<u32>, credit: u32, window: u32) -> Flow {
     Flow {
         next_incoming_id: Some(nii),
-        incoming_window: 2048,
+        incoming_window: window,
         next_outgoing_id: noi,
         outgoing_window: 2048,
         handle: Some(Handle(handle)),
@@ -179,7 +187,7 @@ pub fn run_case(case: &Case) -> Result<Observed, String> {
         let mut bytes = Peer::encode_frame(0, &Performative::Attach(a), &[]);
         let mut step0 = vec![];
         for f in &case.pre {
-            bytes.extend(Peer::encode_frame(0, &Performative::Flow(link_flow(0, their_noi, 0, None, f.credit)), &[]));
+            bytes.extend(Peer::encode_frame(0, &Performative::Flow(link_flow_w(0, their_noi, 0, None, f.credit, case.pre_window)), &[]));
             step0.push((None, f.credit));
         }
         peer.send_raw(&bytes).await.map_err(e)?;
@@ -259,6 +267,18 @@ fn check(case: &Case, obs: &Observed) -> Option<(String, String)> {
     let want = allowed_after(case, obs);
     let mut seen = 0usize;
     for (k, (&got, &w)) in obs.transfers_after.iter().zip(want.iter()).enumerate() {
+        // the session window the pipelined flows stated holds until a later flow re-opens it (C07): the
+        // listener's session takes the session part of a flow even when its link is not accepted yet
+        let window_limit = if k == 0 && !case.pre.is_empty() { case.pre_window as usize } else { usize::MAX };
+        if got > window_limit {
+            return Some(("listener-session:window-overrun".into(), format!("the pipelined flows stated next-incoming-id = the listener's next-outgoing-id and incoming-window {}, yet {} transfers went out before any later flow", case.pre_window, got)));
+        }
+        if case.pre_window < 2048 {
+            // transfers the link handed over under the pipelined credit and the session held back arrive after
+            // later flows: such a case is judged for the window only
+            seen = got;
+            continue;
+        }
         // a flow that lowers the limit below what is already out takes nothing back
         let limit = w.max(seen);
         if got > limit {
@@ -290,7 +310,7 @@ fn model_lines(case: &Case, obs: &Observed) -> (Vec<String>, Vec<usize>) {
 
 pub fn main(opts: &Opts) {
     let mut report = Report::new(
-        "C08",
+        if opts.property.is_empty() { "C08" } else { &opts.property },
         "a sending link accepted by a LinkAcceptor against a scripted receiver: 0..3 link flows pipelined behind the attach (buffered by the listener session until the application accepts the link, \
          after 0 / 20 / 50 virtual ms), then 0..3 later flows with and without the delivery-count echoed, 1..6 messages sent one after the other; after every step the transfers on the wire are compared \
          with what the latest flow allows (not more, not fewer while messages wait) and with the Lean model of the sender's flow state; non-trivial = at least two pipelined flows with different credit, \
@@ -315,9 +335,10 @@ pub fn main(opts: &Opts) {
     let mut rng = Rng::new(opts.seed ^ 0x15e7d);
     let n = if opts.thorough() { 600 } else { 80 };
     let mut cases: Vec<Case> = vec![
-        Case { pre: vec![Fl { credit: 5, echo_count: false }, Fl { credit: 0, echo_count: false }], accept_delay_ms: 50, msgs: 3, post: vec![Fl { credit: 2, echo_count: true }] },
-        Case { pre: vec![Fl { credit: 0, echo_count: false }, Fl { credit: 3, echo_count: false }], accept_delay_ms: 50, msgs: 3, post: vec![] },
-        Case { pre: vec![Fl { credit: 1, echo_count: false }, Fl { credit: 2, echo_count: false }, Fl { credit: 1, echo_count: false }], accept_delay_ms: 20, msgs: 4, post: vec![Fl { credit: 0, echo_count: true }, Fl { credit: 3, echo_count: true }] },
+        Case { pre: vec![Fl { credit: 5, echo_count: false }, Fl { credit: 0, echo_count: false }], accept_delay_ms: 50, msgs: 3, post: vec![Fl { credit: 2, echo_count: true }], pre_window: 2048 },
+        Case { pre: vec![Fl { credit: 0, echo_count: false }, Fl { credit: 3, echo_count: false }], accept_delay_ms: 50, msgs: 3, post: vec![], pre_window: 2048 },
+        Case { pre: vec![Fl { credit: 5, echo_count: false }], accept_delay_ms: 50, msgs: 4, post: vec![Fl { credit: 5, echo_count: true }], pre_window: 2 },
+        Case { pre: vec![Fl { credit: 1, echo_count: false }, Fl { credit: 2, echo_count: false }, Fl { credit: 1, echo_count: false }], accept_delay_ms: 20, msgs: 4, post: vec![Fl { credit: 0, echo_count: true }, Fl { credit: 3, echo_count: true }], pre_window: 2048 },
     ];
     for _ in 0..n {
         cases.push(gen_case(&mut rng));
@@ -333,7 +354,14 @@ pub fn main(opts: &Opts) {
         }
         match run_case(case) {
             Ok(obs) => {
-                if let Some((key, description)) = check(case, &obs) {
+                let view = |key: &str| -> bool {
+                    match opts.property.as_str() {
+                        "C07" => key.starts_with("listener-session:") || key.ends_with("scenario-failed"),
+                        "C08" => !key.starts_with("listener-session:"),
+                        _ => true,
+                    }
+                };
+                if let Some((key, description)) = check(case, &obs).filter(|(k, _)| view(k)) {
                     report.finding(Finding { kind: "violation", key, description, replay: json!({"property": "C08", "module": "lsender", "case": case.to_json(), "observed": format!("{:?}", obs)}) });
                 }
                 let (lines, marks) = model_lines(case, &obs);
@@ -356,6 +384,9 @@ pub fn main(opts: &Opts) {
                 for (ci, (start, marks, got)) in per_case.iter().enumerate() {
                     // transfers the model lets out up to each mark = number of "S" outputs so far
                     let mut prev = 0usize;
+                    if cases[ci].pre_window < 2048 {
+                        continue;
+                    }
                     for (k, &m) in marks.iter().enumerate() {
                         let sent = model[*start..*start + m].iter().filter(|l| l.starts_with("S ")).count();
                         let sent = sent.min(cases[ci].msgs);
